@@ -20,7 +20,7 @@ def _tref_time(tref, P):
     return Time(float(T0 + (c + Fraction(k, L)) * P), format="mjd", scale="tcb")
 
 
-def _data(slots, P, order=None, mirror=False, tref=None, sort=True):
+def _data(slots, P, order=None, mirror=False, tref=None, sort=True, dirty=False):
     import astropy.units as u
     from astropy.time import Time
     from thejoker import RVData
@@ -33,6 +33,12 @@ def _data(slots, P, order=None, mirror=False, tref=None, sort=True):
         tt = 2 * T0 + 10 * P - tt
     rv = np.arange(len(tt), dtype=float) * u.km / u.s
     err = np.ones(len(tt)) * u.km / u.s
+    if dirty:
+        # raw input with unusable rows before the first and after the last usable epoch (NaN velocity / infinite error): the
+        # diagnostics are those of the observations the object HOLDS
+        tt = np.concatenate([[T0 - 3.3 * P], tt, [T0 + 50.7 * P]])
+        rv = np.concatenate([[np.nan], rv.value, [1.0]]) * u.km / u.s
+        err = np.concatenate([[1.0], err.value, [np.inf]]) * u.km / u.s
     kw = {}
     if tref is not None:
         kw["t_ref"] = _tref_time(tref, P)
@@ -104,10 +110,10 @@ def check_diag(case, part):
     ambiguous = {i for i, p in enumerate(pos) if p != p0}
     obs = []
     for order in case["orders"]:
-        for sort in (True, False):
-            c2 = dict(case, order=order, sort=sort)
+        for sort, dirty in ((True, False), (False, False), (True, True)):
+            c2 = dict(case, order=order, sort=sort, dirty=dirty)
             try:
-                d = _data(slots, P, order=order, tref=tref, sort=sort)
+                d = _data(slots, P, order=order, tref=tref, sort=sort, dirty=dirty)
                 gap = float(np.squeeze(sa.max_phase_gap(samp, d)))
                 span = float(np.squeeze(sa.periods_spanned(samp, d)))
                 covs = {nb: float(np.squeeze(sa.phase_coverage(samp, d, n_bins=nb))) for nb in case["bins"]}
